@@ -132,6 +132,39 @@ def restartL (r : Req) : Req :=
 
 def machine : Machine G Req := { step := step, restartG := restartG, restartL := restartL }
 
+/-! ## linked CA: the revoked tables live at the linked CA service
+
+  /repo/authority/tls.go `Authority.revoke` / `revokeSSH` and /repo/authority/authorize.go `authorizeRenew` /
+  `authorizeSSHCertificate` (and `Authority.IsRevoked`): when the admin database is the linked-CA client
+  (/repo/authority/linkedca.go), a revocation is the RPC `RevokeCertificate` / `RevokeSSHCertificate` and the renewal
+  gates ask `GetCertificateStatus` / `GetSSHCertificateStatus`: the local `revoked_*` tables are neither written nor
+  read. The service marks the serial revoked whether or not it was before (the first record is kept) and answers with
+  success, so there is no "already revoked" in this deployment; an RPC error (`before`: not performed, `after`: performed,
+  the caller sees an error) is a 500-class answer. `G` is then the service's two tables; `stored` = the RPC was performed. -/
+
+def lstepRevoke (g : G) (r : Req) : G × Req :=
+  match r.pc with
+  | 0 => (g, { r with pc := 1 })
+  | 1 =>
+    match r.inp.fault with
+    | .before => (g, { r with out := .err })
+    | .none =>
+      (g.setTable r.inp.kind.isSSH (casNil (g.table r.inp.kind.isSSH) r.inp.key r.inp.tag).1, { r with pc := 2, stored := true })
+    | .after =>
+      (g.setTable r.inp.kind.isSSH (casNil (g.table r.inp.kind.isSSH) r.inp.key r.inp.tag).1, { r with stored := true, out := .err })
+  | 2 =>
+    match r.inp.kind with
+    | .revokeX true => if r.inp.crlFails then (g, { r with pc := 3, out := .err }) else (g, { r with pc := 3, out := .ok })
+    | _ => (g, { r with pc := 3, out := .ok })
+  | _ => (g, r)
+
+def lstep (g : G) (r : Req) : G × Req :=
+  if r.out ≠ .pending then (g, r)
+  else if r.inp.kind.isRevoke then lstepRevoke g r else stepRenew g r
+
+/-- a restart of the linked CA does not touch the service -/
+def lmachine : Machine G Req := { step := lstep, restartG := restartG, restartL := restartL }
+
 /-! ## serial canonicalisation (`RevokeRequest.Validate`)
 
   `new(big.Int).SetString(s, 0)`: optional sign; `0x`/`0X`, `0b`/`0B`, `0o`/`0O` prefixes, a bare
